@@ -62,8 +62,9 @@ func cmdArgs(p *lang.Process) (err error) {
 	if err != nil {
 		jObj.Error = err.Error()
 		p.ExitNum = 1
+	} else {
+		jObj.Flags = flagsT.GetMap()
 	}
-	jObj.Flags = flagsT.GetMap()
 
 	b, err = json.Marshal(jObj, false)
 	if err != nil {
